@@ -9,6 +9,7 @@ EXTENDS Props, Json
 
 CONSTANTS Family,     \* which configurations / events to explore
           WithPre,    \* also start from the families' established worlds (PreVariants)
+          WithTocks,  \* single-unit clock steps in the families with thresholds (lock, expire, recover)
           MaxNow,     \* bound on the abstract clock
           MaxIss,     \* bound on every issued-secret counter
           MaxDepth,   \* bound on behaviour length (state constraint)
@@ -168,7 +169,7 @@ ProbeLogout(c) ==
 
 Ticks(ds) == { [Ev("Tick", NONE) EXCEPT !.d = d] : d \in ds }
 \* single units: with whole ticks they reach both sides of every threshold (Thr(k) = G*k + 5) to the unit
-Tocks(ds) == { [Ev("Tock", NONE) EXCEPT !.d = d] : d \in ds }
+Tocks(ds) == IF WithTocks THEN { [Ev("Tock", NONE) EXCEPT !.d = d] : d \in ds } ELSE {}
 
 Admin(acts, ps) == { [Ev(a, NONE) EXCEPT !.pid = p] : a \in acts, p \in ps }
 
